@@ -1,6 +1,6 @@
 (* Extraction of the IR modify-layer model. *)
 From Coq Require Import Extraction ExtrOcamlBasic ZArith List String.
-From GR Require Import Base.Result Adt.RefCache Adt.RetCache IR.State IR.Modify IR.Edit IR.Resolve IR.Scopes.
+From GR Require Import Base.Result Adt.RefCache Adt.RetCache IR.State IR.Modify IR.Edit IR.Resolve IR.Scopes IR.CfiTracker.
 Extraction Language OCaml.
-Extraction "ir_model.ml" apply_all finish mk_st mk_patch mk_blk mk_ival insert delete split_block join_blocks remove_block sort_mods no_overlap plan
+Extraction "ir_model.ml" apply_all finish mk_st mk_patch mk_blk mk_ival insert delete split_block join_blocks remove_block sort_mods no_overlap plan tracker in_procedure
   Z.add Z.of_nat String.eqb.
